@@ -224,7 +224,8 @@ def make_chunk_stream():
             self.ri = self.wi = 0
             self.sink = bytearray()
             self.asked = []      # (n requested, n delivered) per _read call
-            self.accepted = []   # (n offered, n accepted) per _write call
+            self.accepted = []   # (n offered, n accepted) per _write call; accepted -1 = the call raised
+            self.raised = 0
             self._set_mode(mode, bufsize)
 
         def _read(self, size):
@@ -241,6 +242,11 @@ def make_chunk_stream():
         def _write(self, data):
             want = self.wchunks[self.wi % len(self.wchunks)]
             self.wi += 1
+            if want < 0:          # scripted failure of the stream (a timeout on a channel ...): nothing is taken
+                import socket
+                self.accepted.append((len(data), -1))
+                self.raised += 1
+                raise socket.timeout("scripted stream failure")
             k = max(1, min(len(data), want))
             self.sink += bytes(data[:k])
             self.accepted.append((len(data), k))
